@@ -162,6 +162,38 @@ def noRC : List DOp → Bool
   | .close _ :: _ => false
   | _ :: r => noRC r
 
+
+/-! ### concurrent FIRST prepared sessions: `Load` and `Store` are two separate steps of `Session`
+
+  gorm.go:268-273 is a check-then-act on `cacheStore` (`Load`, then `NewPreparedStmtDB` + `Store`; not `LoadOrStore`).
+  Goroutines calling `Session(&Session{PrepareStmt: true})` on handles of one database are modelled with the two
+  steps every call consists of; a schedule is an arbitrary list of such steps (a step that is not enabled is skipped). -/
+
+structure CState where
+  store : Option Nat := none                        -- `cacheStore[preparedStmtDBKey]` (a cache object)
+  nC : Nat := 0                                     -- cache objects allocated so far
+  loaded : Nat → Option (Option Nat) := fun _ => none   -- what goroutine g's `Load` returned (`none` = not executed yet)
+  got : Nat → Option Nat := fun _ => none           -- the cache goroutine g's new handle works with
+
+inductive CAct
+  | load (g : Nat)     -- `v, ok := db.cacheStore.Load(preparedStmtDBKey)`
+  | build (g : Nat)    -- found: reuse `v`; not found: `NewPreparedStmtDB` + `Store` (overwriting whatever is stored now)
+deriving DecidableEq, Repr
+
+def cstep (s : CState) : CAct → CState
+  | .load g =>
+    match s.loaded g with
+    | some _ => s
+    | none => { s with loaded := fun j => if j = g then some s.store else s.loaded j }
+  | .build g =>
+    match s.loaded g, s.got g with
+    | some (some c), none => { s with got := fun j => if j = g then some c else s.got j }
+    | some none, none =>
+      { s with nC := s.nC + 1, store := some s.nC, got := fun j => if j = g then some s.nC else s.got j }
+    | _, _ => s
+
+def crun (s : CState) (sched : List CAct) : CState := sched.foldl cstep s
+
 /-! ### the configuration of the CURRENT source tree, from the regenerated creation-site facts -/
 
 open Gen in
